@@ -62,11 +62,19 @@ func (c *decoratorController) callHook(
 		}
 	}
 
+	// Null entries carry nothing to reconcile; drop them here, because the maps of
+	// desired attachments built from this list dereference every entry.
+	attachments := make([]*unstructured.Unstructured, 0, len(response.Attachments))
 	for _, child := range response.Attachments {
+		if child == nil {
+			continue
+		}
 		if child != nil && child.GetNamespace() == "" {
 			child.SetNamespace(parent.GetNamespace())
 		}
+		attachments = append(attachments, child)
 	}
+	response.Attachments = attachments
 
 	return &response, nil
 }
